@@ -266,9 +266,21 @@ def split_generics(ty):
 ELEM_SIZE = {"u8": 1, "i8": 1, "bool": 1, "u16": 2, "i16": 2, "u32": 4, "i32": 4, "f32": 4, "char": 4, "u64": 8, "i64": 8, "usize": 8, "isize": 8, "f64": 8, "u128": 16, "i128": 16}
 
 
-def maxlen_of(elem_ty):
+def size_of(elem_ty, facts=None):
+    """size in bytes of a concrete type: primitives, or the compiler's layout as recorded by the driver; None if unknown"""
+    t = elem_ty.strip()
+    if t in ELEM_SIZE:
+        return ELEM_SIZE[t]
+    if facts is not None:
+        v = getattr(facts, "type_sizes", {}).get(t)
+        if v is not None:
+            return int(v)
+    return None
+
+
+def maxlen_of(elem_ty, facts=None):
     """an object occupies at most isize::MAX bytes, so a slice of T has at most isize::MAX / size_of::<T>() elements"""
-    return MAXLEN // ELEM_SIZE.get(elem_ty.strip(), 1)
+    return MAXLEN // max(1, size_of(elem_ty, facts) or 1)
 
 
 def top_of_type(ty, facts=None, depth=0):
@@ -298,7 +310,7 @@ def top_of_type(ty, facts=None, depth=0):
             except ValueError:
                 return V(I(0, MAXLEN), top_of_type(el.strip(), facts, depth + 1))
             return V(I(n, n), top_of_type(el.strip(), facts, depth + 1))
-        return V(I(0, maxlen_of(inner)), top_of_type(inner.strip(), facts, depth + 1))
+        return V(I(0, maxlen_of(inner, facts)), top_of_type(inner.strip(), facts, depth + 1))
     if ty.startswith("(") and ty.endswith(")"):
         if ty == "()":
             return S({})
@@ -306,7 +318,7 @@ def top_of_type(ty, facts=None, depth=0):
         return S({str(i): top_of_type(a, facts, depth + 1) for i, a in enumerate(args)})
     base, args = split_generics(ty)
     if base in ("std::vec::Vec", "alloc::vec::Vec") and args:
-        return V(I(0, maxlen_of(args[0])), top_of_type(args[0], facts, depth + 1))
+        return V(I(0, maxlen_of(args[0], facts)), top_of_type(args[0], facts, depth + 1))
     if base in ("std::option::Option", "core::option::Option") and args:
         return E({"None": S({}), "Some": S({"0": top_of_type(args[0], facts, depth + 1)})})
     if base in ("std::result::Result", "core::result::Result") and len(args) == 2:
